@@ -160,13 +160,14 @@ Proof.
     split; [intros [? _]; discriminate|discriminate].
 Qed.
 
-Lemma first_bad_outcomes l o : first_bad_edge_item l = Some o -> o = VE \/ o = RaiseOther EType.
+Lemma first_bad_outcomes l o : first_bad_edge_item l = Some o -> o = VE.
 Proof.
   induction l as [|a l IH]; cbn; [discriminate|].
   destruct (it_kind a); try (intros [= <-]; auto).
   destruct (it_in_graph a); [exact IH|intros [= <-]; auto].
 Qed.
-Lemma expand_outcomes cs o : expand_cons cs = Some o -> o = VE \/ o = RaiseOther EType.
+(* the expansion of node-mode constraints can only fail with ValueError *)
+Lemma expand_outcomes cs o : expand_cons cs = Some o -> o = VE.
 Proof.
   unfold expand_cons, guard, seq. destruct (forallb c_is_list cs); cbn; [|intros [= <-]; auto].
   destruct (existsb _ cs); [intros [= <-]; auto|].
@@ -174,18 +175,11 @@ Proof.
   destruct (c_items c0) as [|it0 l0]; [discriminate|].
   destruct (it_kind it0).
   - destruct (forallb _ _); cbn; [discriminate|intros [= <-]; auto].
-  - intros H. apply first_bad_outcomes in H as [->| ->]; auto.
-  - intros H. apply first_bad_outcomes in H as [->| ->]; auto.
+  - apply first_bad_outcomes.
+  - apply first_bad_outcomes.
   - intros [= <-]; auto.
 Qed.
 
-(* the one constraint deviation that is still OPEN: in node mode an edge-list constraint with a non-iterable item
-   makes `edge not in G.edges` raise TypeError (finding NodeExpandedDiGraph...:TypeError:non-tuple-item) *)
-Definition dev_expand (i : input) : bool :=
-  match origin i with
-  | ONode => match expand_cons (cons i) with Some (RaiseOther _) => true | _ => false end
-  | _ => false
-  end.
 
 (* internal constraints pass the check  <->  documented shape (given a successful expansion in node mode) *)
 Lemma cons_ok_edge i : origin i <> ONode -> (check_cons (internal_cons i) = None <-> cons_wf i = true).
@@ -371,12 +365,12 @@ Proof.
   - apply check_cons_ve in E. subst. reflexivity.
   - apply cons_ok_edge in E; auto. congruence.
 Qed.
-Lemma cons_bad_node i : origin i = ONode -> cons_wf i = false -> dev_expand i = false ->
+Lemma cons_bad_node i : origin i = ONode -> cons_wf i = false ->
   expand_cons (cons i) = Some VE \/ (expand_cons (cons i) = None /\ check_cons (internal_cons i) = Some VE).
 Proof.
-  intros O W V. unfold dev_expand in V. rewrite O in V.
+  intros O W.
   destruct (expand_cons (cons i)) as [o|] eqn:E.
-  - left. apply expand_outcomes in E as [->| ->]; auto; discriminate.
+  - left. apply expand_outcomes in E as ->; auto.
   - right. split; auto. destruct (check_cons (internal_cons i)) as [o|] eqn:E2.
     + apply check_cons_ve in E2. subst. reflexivity.
     + assert (cons_wf i = true) by (apply cons_ok_node; auto). congruence.
@@ -391,9 +385,9 @@ Lemma is_nil_map {A B} (f : A -> B) l : is_nil (map f l) = is_nil l.
 Proof. destruct l; reflexivity. Qed.
 Ltac use_bad i :=
   match goal with
-  | O : origin i = ONode, W : cons_wf i = false, V : dev_expand i = false |- _ =>
+  | O : origin i = ONode, W : cons_wf i = false |- _ =>
     let CB := fresh "CB" in let CB1 := fresh "CB" in let CB2 := fresh "CB" in
-    destruct (cons_bad_node i O W V) as [CB|[CB1 CB2]]
+    destruct (cons_bad_node i O W) as [CB|[CB1 CB2]]
   | O : origin i = OEdge, W : cons_wf i = false |- _ =>
     let O' := fresh "O" in let CB := fresh "CB" in
     assert (O' : origin i <> ONode) by congruence; pose proof (cons_bad_edge i O' W) as CB
@@ -465,25 +459,22 @@ Definition ign_elem := {| e_w := WPos; e_ign := true |}.
 Definition pair_then_int := [ {| c_is_list := true; c_items := [ {| it_kind := IPair; it_in_graph := true |}; {| it_kind := IInt; it_in_graph := false |} ] |} ].
 
 (* ================================================================== kFlowDecomp *)
-Definition deviates_kFlowDecomp (i : input) := all_ignored i || dev_expand i.
+Definition deviates_kFlowDecomp (i : input) := all_ignored i.
 Theorem validate_sound_kFlowDecomp i : validate_kFlowDecomp i = RaiseValueError -> in_domain_kFlowDecomp i = false.
 Proof. intros H. destruct (in_domain_kFlowDecomp i) eqn:D; [exfalso|reflexivity]. sound_script i. Qed.
 Theorem validate_complete_kFlowDecomp i :
   in_domain_kFlowDecomp i = false -> deviates_kFlowDecomp i = false -> validate_kFlowDecomp i = RaiseValueError.
-Proof. intros D V. unfold deviates_kFlowDecomp in V. split_dev V. complete_script i. Qed.
+Proof. intros D V. unfold deviates_kFlowDecomp in V. complete_script i. Qed.
 Theorem accepts_domain_kFlowDecomp i :
   in_domain_kFlowDecomp i = true -> has_live i = true -> validate_kFlowDecomp i = Accept.
 Proof. intros D L. rewrite has_live_all_ignored in L. apply negb_true_iff in L. accept_script i. Qed.
-(* still open: DESIGN #24 (every weighted element ignored) and the non-iterable constraint item in node mode *)
+(* still open: DESIGN #24 (every weighted element ignored) *)
 Theorem validate_kFlowDecomp_refuted_all_ignored :
   exists i, in_domain_kFlowDecomp i = false /\ validate_kFlowDecomp i = RaiseOther EOverflow.
 Proof. exists (set_origin (set_k (set_elems ex_dag [ign_elem] true) (KInt 0)) OEdge TInt). vm_compute. auto. Qed.
-Theorem validate_kFlowDecomp_refuted_non_tuple_item :
-  exists i, in_domain_kFlowDecomp i = false /\ validate_kFlowDecomp i = RaiseOther EType.
-Proof. exists (set_origin (set_cons ex_dag pair_then_int 1%Q) ONode TFloat). vm_compute. auto. Qed.
 
 (* ================================================================== MinFlowDecomp *)
-Definition deviates_MinFlowDecomp (i : input) := all_ignored i || dev_expand i || negb (search_enters i).
+Definition deviates_MinFlowDecomp (i : input) := all_ignored i || negb (search_enters i).
 Theorem validate_sound_MinFlowDecomp i : validate_MinFlowDecomp i = RaiseValueError -> in_domain_MinFlowDecomp i = false.
 Proof.
   intros H. destruct (in_domain_MinFlowDecomp i) eqn:D; [exfalso|reflexivity].
@@ -510,12 +501,12 @@ Proof.
 Qed.
 
 (* ================================================================== kMinPathError / kLeastAbsErrors *)
-Definition deviates_kErrDAG (i : input) := all_ignored i || dev_expand i.
+Definition deviates_kErrDAG (i : input) := all_ignored i.
 Theorem validate_sound_kErrDAG i : validate_kErrDAG i = RaiseValueError -> in_domain_kErrDAG i = false.
 Proof. intros H. destruct (in_domain_kErrDAG i) eqn:D; [exfalso|reflexivity]. sound_script i. Qed.
 Theorem validate_complete_kErrDAG i :
   in_domain_kErrDAG i = false -> deviates_kErrDAG i = false -> validate_kErrDAG i = RaiseValueError.
-Proof. intros D V. unfold deviates_kErrDAG in V. split_dev V. complete_script i. Qed.
+Proof. intros D V. unfold deviates_kErrDAG in V. complete_script i. Qed.
 Theorem accepts_domain_kErrDAG i :
   in_domain_kErrDAG i = true -> has_live i = true -> validate_kErrDAG i = Accept.
 Proof. intros D L. rewrite has_live_all_ignored in L. apply negb_true_iff in L. accept_script i. Qed.
